@@ -245,7 +245,9 @@ func (s *stepper) probe(maxfid uint64, identity bool) {
 				s.c.Violation(s.prop+":fid-unbound-though-model-says-bound", det)
 				continue
 			}
-			if !identity || f.X != 0 || f.Fenced {
+			// xattr fids are fids like any other here: Tgetattr through them
+			// must reach the object they were bound to, at its current path
+			if !identity || f.Fenced {
 				continue
 			}
 			_ = mark
